@@ -1,6 +1,7 @@
 """
 This module contains the incremental SAGE explainer.
 """
+import copy
 from typing import Callable, Any, Union, Dict, Sequence, Optional
 
 import numpy as np
@@ -121,18 +122,19 @@ class IncrementalSage(BaseIncrementalFeatureImportance):
         Returns:
             (dict): The current SAGE feature importance scores.
         """
-        if self.seen_samples >= 1:
+        explain = self.seen_samples >= 1
+        if explain:
             if n_inner_samples is None:
                 n_inner_samples = self.n_inner_samples
             permutation_chain = [self.feature_names[i]
                                  for i in np.random.permutation(len(self.feature_names))]
             y_i_pred = self._model_function(x_i)
             model_loss = self._loss_function(y_i, y_i_pred)
-            self._model_loss_tracker.update(model_loss)
-            self._marginal_prediction_tracker.update(y_i_pred)
-            self.marginal_prediction = self._marginal_prediction_tracker.get_normalized()
-            sample_loss = self._loss_function(y_i, self.marginal_prediction)
-            self._marginal_loss_tracker.update(sample_loss)
+            marginal_prediction_tracker = copy.deepcopy(self._marginal_prediction_tracker)
+            marginal_prediction_tracker.update(y_i_pred)
+            marginal_prediction = marginal_prediction_tracker.get_normalized()
+            marginal_loss = self._loss_function(y_i, marginal_prediction)
+            sample_loss = marginal_loss
             features_not_in_s = set(self.feature_names)
             marginal_contributions = {}
             for feature in permutation_chain:
@@ -147,6 +149,13 @@ class IncrementalSage(BaseIncrementalFeatureImportance):
                 marginal_contribution = sample_loss - feature_loss
                 sample_loss = feature_loss
                 marginal_contributions[feature] = marginal_contribution
+        if update_storage:
+            self._storage.update(x_i, y_i)
+        if explain:  # all callbacks have returned: commit the estimates of this observation
+            self._model_loss_tracker.update(model_loss)
+            self._marginal_prediction_tracker = marginal_prediction_tracker
+            self.marginal_prediction = marginal_prediction
+            self._marginal_loss_tracker.update(marginal_loss)
             self._importance_trackers.update(marginal_contributions)
             variances = {
                 feature: (marginal_contributions[feature] - self.importance_values[feature])**2
@@ -154,6 +163,4 @@ class IncrementalSage(BaseIncrementalFeatureImportance):
             }
             self._variance_trackers.update(variances)
         self.seen_samples += 1
-        if update_storage:
-            self._storage.update(x_i, y_i)
         return self.importance_values
